@@ -145,12 +145,8 @@ def _polyline(c, n, closed):
     return c.new('path.Path', *segs), segs, V
 
 
-@contract('C09', 'path.Path.cropped', params=[{'n': 3, 'closed': False, 'wrap': False, '_no_bounded': True}], level='per-shape', budget=120, tier='thorough')
-def path_cropped_open_3(c, n, closed, wrap):
-    return path_cropped(c, n, closed, wrap)
-
-
-@contract('C09', 'path.Path.cropped', params=[{'n': 2, 'closed': False, 'wrap': False, '_no_bounded': True}, {'n': 3, 'closed': True, 'wrap': False, '_no_bounded': True},
+@contract('C09', 'path.Path.cropped', params=[{'n': 2, 'closed': False, 'wrap': False, '_no_bounded': True}, {'n': 3, 'closed': False, 'wrap': False, '_no_bounded': True},
+                                              {'n': 3, 'closed': True, 'wrap': False, '_no_bounded': True},
                                               {'n': 3, 'closed': True, 'wrap': True, '_no_bounded': True}],
           level='per-shape', budget=120)
 def path_cropped(c, n, closed, wrap):
@@ -232,6 +228,40 @@ def path_cropped_sampled(c, kinds, closed):
     L = path.length()
     want = path.length(T0, T1) if T0 < T1 else path.length(T0, 1) + path.length(0, T1)
     c.ensures('length-is-length(T0,T1)', abs(cr.length() - want) <= 1e-6 * L)
+
+
+@contract('C09', 'path.Path.cropped', params=[{'laps': n, '_bounded_only': True} for n in (2, 3)])
+def path_cropped_over_repeated_segments_sampled(c, laps):
+    """bounded stand-in: a path that runs over the same edges several times, so that it contains
+    segments that are EQUAL by value (a polyline a-b-a-b-..., or a closed triangle walked
+    `laps` times): crops that start exactly on a joint or inside"""
+    import svgpathtools.path as sp
+    a, b, d = c.cplx('a'), c.cplx('b'), c.cplx('d')
+    c.assume(abs(a - b) > 1e-3 and abs(b - d) > 1e-3 and abs(d - a) > 1e-3)
+    tri = c.bool('triangle')
+    if tri:
+        segs = []
+        for _ in range(laps):
+            segs += [sp.Line(a, b), sp.Line(b, d), sp.Line(d, a)]
+    else:
+        V = [a, b] * (laps + 1)
+        segs = [sp.Line(V[i], V[i + 1]) for i in range(len(V) - 1)]
+    path = sp.Path(*segs)
+    n = len(segs)
+    # T0 exactly on a joint (every other sample) or anywhere; T1 later, inside a segment
+    k0 = int(abs(c.real('k0')) * 7) % n
+    T0 = path.t2T(k0, 0) if c.bool('on_joint') else abs(c.real('T0')) % 1.0
+    T1 = T0 + (1 - T0) * (0.05 + 0.9 * (abs(c.real('u')) % 1.0))
+    c.assume(T0 < T1 <= 1 and T1 - T0 > 1e-3)
+    for k in range(1, n):
+        Tk = path.t2T(k, 0)
+        c.assume(abs(T1 - Tk) > 1e-6 and (abs(T0 - Tk) > 1e-6 or T0 == Tk))
+    cr = path.cropped(T0, T1)
+    sc = max(abs(a), abs(b), abs(d)) + 1e-300
+    c.ensures('starts-at-point(T0)', abs(cr.start - path.point(T0)) <= 1e-7 * sc)
+    c.ensures('ends-at-point(T1)', abs(cr.end - path.point(T1)) <= 1e-7 * sc)
+    c.ensures('pieces-joined', all(abs(cr[i].end - cr[i + 1].start) <= 1e-9 * sc for i in range(len(cr) - 1)))
+    c.ensures('length-is-length(T0,T1)', abs(cr.length() - path.length(T0, T1)) <= 1e-6 * path.length())
 
 
 # ------------------------------------------------------------------------------------ arcs
